@@ -193,5 +193,13 @@ def run():
 
 
 def replay(path):
+    import json
+    c = json.load(open(path))["case"]
+    if "programs" in c:          # a run of the test driver
+        from pvlib import run_cases
+        o = run_cases([{"id": "r", "mode": "session", "embed": "runtest", "progs": c["programs"], "helpers": [""] * len(c["programs"]), "shared": {}, "stdin": "", "deadline_ms": 20000}],
+                      nproc=1, isolate=True)["r"]
+        print("files:", c["programs"], "\nrun:", (o.get("extra") or {}).get("obs"), "\nexpected:", c.get("expected"))
+        return 0
     from checks.c03 import replay as rp
     return rp(path)
